@@ -124,6 +124,12 @@ KEYS = {
     "SparselyBin.extra-bin": ('H.SparselyBin.ed(1.0, 1.0, "Count", dict([(0, C1())] + [(i + 1, C0()) for i in range(k)]), C0(), 0.0)', 0, 2),
     "Categorize.extra-bin": ('H.Categorize.ed(1.0, "Count", dict([("a", C1())] + [(CATS[i + 1], C0()) for i in range(k)]))', 0, 2),
     "Bin.values:type": ("H.Bin.ed(0.0, 1.0, 0.0, [[C0, lambda: H.Sum.ed(0.0, 0.0), lambda: H.Average.ed(0.0, 0.0)][k]()], C0(), C0(), C0())", 0, 2),
+    "Categorize.empty.bins:type": ('H.Categorize.ed(0.0, ["Count", "Sum", "Average"][k], {})', 0, 2),
+    "SparselyBin.empty.bins:type": ('H.SparselyBin.ed(1.0, 0.0, ["Count", "Sum", "Average"][k], {}, C0(), 0.0)', 0, 2),
+    "Count.transform": ("H.Count([D.identity, lambda w: 2 * w, lambda w: w * w][k])", 0, 2),
+    "Bin.values.Count.transform": ("H.Bin(2, 0.0, 2.0, qx, H.Count([D.identity, lambda w: 2 * w, lambda w: w * w][k]))", 0, 2),
+    "Bin.nanflow.Count.transform": ("H.Bin(2, 0.0, 2.0, qx, H.Count(), H.Count(), H.Count(), H.Count([D.identity, lambda w: 2 * w, lambda w: w * w][k]))", 0, 2),
+    "Label.Bin.Count.transform": ("H.Label(a=H.Bin(2, 0.0, 2.0, qx, H.Count([D.identity, lambda w: 2 * w, lambda w: w * w][k])))", 0, 2),
     "type": ("[C0, lambda: H.Sum.ed(0.0, 0.0), lambda: H.Average.ed(0.0, NAN), lambda: H.Minimize.ed(0.0, NAN), lambda: H.Bag.ed(0.0, {}, 'N')][k]()", 0, 4),
 }
 
